@@ -269,3 +269,36 @@ Example C18_hyps_satisfiable :
    (3 <= length (arr (pq_ s)))%nat /\
    tout_ (t_popleft s 5%nat x) = TOk 1 /\ tout_ (t_popleft s 0%nat x) = TRaise).
 Proof. split; [exact prefill_inv | vm_compute; repeat split; lia]. Qed.
+
+(* ------------------------------------------------------------------------------------------
+   After the repair (fix: commit "call_soon_threadsafe appended to the heap based ready queue
+   from foreign threads"): foreign submissions only append to an inbox deque and the loop thread
+   drains it at the start of each iteration.  [rev_ := RForeign x | RLoop op | RDrain]; a run is
+   ANY list of such events - in particular a submission may arrive "in the middle" of a loop-thread
+   operation, which at this level means anywhere between two events. *)
+From Asynkit Require Import Queue.ThreadsRepaired.
+
+Theorem C18_repaired_queue_invariant :
+  forall (evs : list rev_) (r : rst), PInv HPV (rq_ r) -> PInv HPV (rq_ (rrun r evs)).
+Proof. exact repaired_inv. Qed.
+Print Assumptions C18_repaired_queue_invariant.
+
+Theorem C18_repaired_operation_undisturbed :
+  forall (r : rst) (op : lop) (xs : list E),
+    let r' := rrun r (map RForeign xs ++ [RLoop op]) in
+    rq_ r' = fst (seq_op (rq_ r) op) /\ routs r' = routs r ++ [snd (seq_op (rq_ r) op)] /\
+    rinbox r' = rinbox r ++ xs.
+Proof. exact repaired_op_undisturbed. Qed.
+Print Assumptions C18_repaired_operation_undisturbed.
+
+Theorem C18_repaired_drain_is_sequential_appends :
+  forall r : rst,
+    rq_ (rstep r RDrain) = fold_left foreign_append (rinbox r) (rq_ r) /\ rinbox (rstep r RDrain) = [].
+Proof. exact repaired_drain. Qed.
+Print Assumptions C18_repaired_drain_is_sequential_appends.
+
+Theorem C18_repaired_never_struck :
+  forall (evs : list rev_) (r : rst) (o : tout),
+    In o (routs (rrun r evs)) -> In o (routs r) \/ exists s op, o = snd (seq_op s op).
+Proof. exact repaired_never_struck. Qed.
+Print Assumptions C18_repaired_never_struck.
